@@ -60,6 +60,9 @@ var c07faults = []struct {
 	{"clone(bad cgroup fd)", forkexec.LocClone, 0, ""},
 	{"idmap(size 0)", forkexec.LocUnshareUserRead, 0, "userns"},
 	{"setgroups(unmapped)", forkexec.LocSetGroups, 0, "userns"},
+	{"setgroups(denied in the namespace)", forkexec.LocSetGroups, 0, "userns"},
+	{"sethostname(65 bytes)", forkexec.LocSetHostName, 0, "userns"},
+	{"setdomainname(65 bytes)", forkexec.LocSetDomainName, 0, "userns"},
 	{"setgid(unmapped)", forkexec.LocSetGid, 0, "userns"},
 	{"setuid(unmapped)", forkexec.LocSetUid, 0, "userns"},
 	{"dup3(closed fd)", forkexec.LocDup3, 0, ""},
@@ -158,6 +161,16 @@ func c07build(cfg c07cfg, fault string, dir string) (*c07scene, error) {
 		r.UIDMappings = []syscall.SysProcIDMap{{ContainerID: 0, HostID: 0, Size: 0}}
 	case "setgroups(unmapped)":
 		r.Credential = &syscall.Credential{Uid: 10, Gid: 10, Groups: []uint32{70000}}
+	case "setgroups(denied in the namespace)":
+		// the mapping denies setgroups (the default): a credential that asks for groups cannot be honoured
+		r.GIDMappingsEnableSetgroups = false
+		r.Credential = &syscall.Credential{Uid: 10, Gid: 10, Groups: []uint32{20, 30}}
+	case "sethostname(65 bytes)":
+		r.CloneFlags |= unix.CLONE_NEWUTS
+		r.HostName = strings.Repeat("h", 65)
+	case "setdomainname(65 bytes)":
+		r.CloneFlags |= unix.CLONE_NEWUTS
+		r.DomainName = strings.Repeat("d", 65)
 	case "setgid(unmapped)":
 		r.Credential = &syscall.Credential{Uid: 10, Gid: 70000}
 	case "setuid(unmapped)":
